@@ -23,7 +23,7 @@ ID = "C09"
 LEVEL = "exploration"
 RULE = ("random queries whose condition contains at least one user predicate (function predicate, Predicate subclass or "
         "HasType) over 1-2 variables, depth<=3, quantifier an / the / infer (infer and a share of an/the use a rule head "
-        "V(b=x, k=expr) built in rule mode), each evaluated from a fresh build under ambient none, query and rule mode. "
+        "V(b=x, k=expr) built in rule mode), each evaluated from a fresh build under ambient none, query and rule mode; for half of the an/infer cases the ambient mode also changes between successive results (one scheduled mode per next()); a share of the single-variable cases take their domain from a nested query that is evaluated lazily. "
         "Non-trivial: the oracle outcome is not empty/none. distinct by structural hash.")
 LEVEL_TEXT = ("Configuration differential on the real code (three ambient modes) plus oracle; predicate call counters "
               "show that user code really ran concretely in every mode; result objects are type-checked.")
@@ -50,7 +50,8 @@ def plan(tier, seed):
 
 def floors(tier):
     return {"distinct_nontrivial": 400, "cls:quant:an": 400, "cls:quant:the": 300, "cls:quant:infer": 300,
-            "cls:head": 500, "cls:tag:fpred": 300, "cls:tag:cpred": 300, "cls:tag:hastype": 100, "predicate_calls": 5000}
+            "cls:head": 500, "cls:tag:fpred": 300, "cls:tag:cpred": 300, "cls:tag:hastype": 100, "predicate_calls": 5000,
+            "cls:ambient_changes_between_results": 300, "cls:query_as_domain": 100}
 
 
 def _has_pred(c):
@@ -72,8 +73,15 @@ def cases(spec, ctx):
         quant = rng.choice(["an", "an", "the", "the", "infer", "infer"])
         head = quant == "infer" or rng.random() < 0.3
         k_expr = rng.choice([["lit", 5], ["v", 0, [["a", "a"]]], ["v", nv - 1, [["a", "b"]]]])
-        yield {"world": world, "kinds": kinds, "cond": cond, "quant": quant, "head": head, "k_expr": k_expr,
-               "caching": rng.random() < 0.75}
+        case = {"world": world, "kinds": kinds, "cond": cond, "quant": quant, "head": head, "k_expr": k_expr,
+                "caching": rng.random() < 0.75}
+        # the ambient mode may also change WHILE the result iterator is being consumed: one mode per next() call
+        case["schedule"] = [rng.choice(MODES) for _ in range(6)] if quant != "the" and rng.random() < 0.5 else None
+        # the variable's domain may itself be a query (evaluated lazily, during the outer evaluation)
+        if nv == 1 and not head and rng.random() < 0.35:
+            case["query_domain"] = True
+            case["outer"] = ["cmp", rng.choice([">", "<=", "!="]), ["v", 0, [["a", rng.choice("ab")]]], ["lit", rng.randint(1, 3)]]
+        yield case
 
 
 def _ambient(mode):
@@ -91,7 +99,7 @@ def expected(case, world):
     doms = H.domains(world, case["kinds"])
     rows = []
     for asg in itertools.product(*doms):
-        if C.holds(case["cond"], asg):
+        if C.holds(case["cond"], asg) and (not case.get("query_domain") or C.holds(case["outer"], asg)):
             if case["head"]:
                 rows.append(("V", m[id(asg[0])], repr(C.ev(case["k_expr"], asg)), m[id(asg[-1])]))
             else:
@@ -113,6 +121,13 @@ def run(case, world, mode):
                 xs = H.declare(case["kinds"], doms)
                 head = V(b=xs[0], k=C.bval(case["k_expr"], xs), c=xs[-1])
                 q = Q(entity(head, C.build(case["cond"], xs, 0, False)))
+        elif case.get("query_domain"):
+            from entity_query_language import let
+            with symbolic_mode():
+                ys = H.declare(case["kinds"], doms)
+                inner = an(entity(ys[0], C.build(case["cond"], ys, 0, False)))
+                xs = [let(D.CLASSES[case["kinds"][0]], domain=inner)]
+                q = Q(set_of(xs, C.build(case["outer"], xs, 0, False)))
         else:
             with symbolic_mode():
                 xs = H.declare(case["kinds"], doms)
@@ -126,10 +141,25 @@ def run(case, world, mode):
                 return ("V", H.lab(m, r.b), repr(r.k), H.lab(m, r.c))
             return tuple(H.lab(m, r[x]) for x in xs)
 
+        sched = case.get("schedule")
         with _ambient(mode):
             try:
                 if case["quant"] == "the":
                     out = ["value", [enc(q.evaluate())]]
+                elif sched:
+                    # started under `mode`, every further result is requested under the scheduled ambient mode
+                    it = q.evaluate()
+                    rows = []
+                    i = 0
+                    while True:
+                        with _ambient(sched[i % len(sched)]):
+                            try:
+                                r = next(it)
+                            except StopIteration:
+                                break
+                        rows.append(enc(r))
+                        i += 1
+                    out = ["rows", rows]
                 else:
                     out = ["rows", [enc(r) for r in q.evaluate()]]
             except MultipleSolutionFound:
@@ -149,6 +179,10 @@ def check_case(case, ctx):
     ctx.cls("cls:quant:" + case["quant"])
     if case["head"]:
         ctx.cls("cls:head")
+    if case.get("schedule"):
+        ctx.cls("cls:ambient_changes_between_results")
+    if case.get("query_domain"):
+        ctx.cls("cls:query_as_domain")
     for t in C.shape_tags(case["cond"]):
         if t in ("fpred", "cpred", "hastype"):
             ctx.cls("cls:tag:" + t)
